@@ -7,6 +7,7 @@
 -/
 import Fca.Lemmas.PosetStep2
 import Fca.Lemmas.PosetInit3
+import Fca.Lemmas.PosetInitTerm
 namespace Fca.C09
 open Fca Fca.Poset Fca.Poset.Fresh
 
@@ -66,7 +67,8 @@ theorem inv_of_check (s : St α) (hnd : s.elems.Nodup) (hc : invCheck leq s = tr
     for every element), `_transpose_hierarchy` turns children into parents and descendants into ancestors, and
     the comparison table filled for fewer than 10 elements holds `leq`.
     (`hs`: the constructor returned; the model's work-list loop carries a fuel argument, the driver supplies
-    200000.  That the loop cannot get stuck or fail on a correct `children_dict` is not part of this theorem.) -/
+    200000.  That the loop cannot get stuck or fail on a correct `children_dict` is not part of this theorem;
+    it is `inv_init_children_dict_total` below.) -/
 theorem inv_init_children_dict (henv : Env leq ord U) (fuel : Nat) (E : List α) (cd : Cache) (s : St α)
     (hnd : E.Nodup) (hU : ∀ a ∈ E, U a) (hcd : CorrectCD leq E cd) (hs : initCD fuel E cd = .ok s) :
     Inv leq s := by
@@ -74,6 +76,31 @@ theorem inv_init_children_dict (henv : Env leq ord U) (fuel : Nat) (E : List α)
   refine ⟨by rw [h.elems]; exact hnd, ?_⟩
   rw [h.elems, h.flag]
   exact h
+
+/-- The constructor with `children_dict` RETURNS and establishes the invariant: for a partial order, duplicate-free
+    elements, a `children_dict` that is the true lower-cover relation (`CorrectCD`) and whose keys are distinct
+    (`hkeys`; a Python `dict` cannot repeat a key - the hypothesis only excludes association lists that are not
+    dicts, and without it the statement is false: `[(0, []), (0, []), (0, [])]` over one element needs 4 units),
+    the work-list loop of `_closed_relation_cache_by_direct_cache` terminates within
+    `fuelBound E.length = 2 ^ E.length` units of fuel, never finds the work list without a ready element, and
+    none of its dictionary lookups fails; so no error branch of the model is taken (`Lemmas/PosetInitTerm`).
+    The bound is exponential because the loop really is: it re-visits an element once per upward cover-path
+    from a minimal element (a performance observation on the real code, not a violation of this property). -/
+theorem inv_init_children_dict_total (henv : Env leq ord U) (E : List α) (cd : Cache)
+    (hnd : E.Nodup) (hU : ∀ a ∈ E, U a) (hcd : CorrectCD leq E cd) (hkeys : (cd.map Prod.fst).Nodup)
+    (fuel : Nat) (hfuel : fuelBound E.length ≤ fuel) :
+    ∃ s, initCD fuel E cd = .ok s ∧ Inv leq s := by
+  obtain ⟨s, hs⟩ := initCD_returns (idxPO_of henv.po hnd hU) hcd hkeys hfuel
+  exact ⟨s, hs, inv_init_children_dict henv fuel E cd s hnd hU hcd hs⟩
+
+/-- the same with the fuel computed from the dictionary (`startWeight`: `Σ 2 ^ #ancestors` over the start
+    list), for association lists with or without repeated keys -/
+theorem inv_init_children_dict_total_exact (henv : Env leq ord U) (E : List α) (cd : Cache)
+    (hnd : E.Nodup) (hU : ∀ a ∈ E, U a) (hcd : CorrectCD leq E cd)
+    (fuel : Nat) (hfuel : startWeight leq E cd < fuel) :
+    ∃ s, initCD fuel E cd = .ok s ∧ Inv leq s := by
+  obtain ⟨s, hs⟩ := initCD_returns_exact (idxPO_of henv.po hnd hU) hcd hfuel
+  exact ⟨s, hs, inv_init_children_dict henv fuel E cd s hnd hU hcd hs⟩
 
 /-- Every operation - all queries, `add` with or without cache filling, `del`, `remove`, `==`, `fill_up_*` -
     preserves the invariant (and changes the element list as `Fresh.next` says, and never the cache flag).
@@ -168,5 +195,29 @@ example : PO subLeq (fun a => a < 8) := by
     have : ∀ a : Fin 8, ∀ b : Fin 8, ∀ c : Fin 8,
         subLeq a.1 b.1 = true → subLeq b.1 c.1 = true → subLeq a.1 c.1 = true := by decide
     exact this ⟨a, ha⟩ ⟨b, hb⟩ ⟨c, hc⟩
+
+/-- the hypotheses of `inv_init_children_dict_total` are met by a non-chain instance (a diamond ∅, {a}, {b},
+    {a,b} under a top {a,b,c}; the element {a,b} is popped twice, the top twice): the dictionary is the true
+    cover relation with distinct keys, so the constructor returns within `fuelBound 5 = 32` units and the state
+    satisfies the invariant; concretely it returns the full descendants table -/
+example : CorrectCD subLeq [0, 1, 2, 3, 7] [(0, []), (1, [0]), (2, [0]), (3, [1, 2]), (4, [3])]
+    ∧ (∃ s, initCD (fuelBound 5) [0, 1, 2, 3, 7] [(0, []), (1, [0]), (2, [0]), (3, [1, 2]), (4, [3])] = .ok s
+        ∧ Inv subLeq s)
+    ∧ (match initCD (α := Nat) (fuelBound 5) [0, 1, 2, 3, 7] [(0, []), (1, [0]), (2, [0]), (3, [1, 2]), (4, [3])] with
+        | .ok s => s.descC == [(4, [3, 1, 2, 0]), (3, [1, 2, 0]), (2, [0]), (1, [0]), (0, [])]
+        | .error _ => false) = true := by
+  have hpo : PO subLeq (fun a => a < 8) := by
+    refine ⟨?_, ?_, ?_⟩
+    · intro a ha; revert a; decide
+    · intro a b ha hb; revert b; revert a; decide
+    · intro a b c ha hb hc
+      have : ∀ a : Fin 8, ∀ b : Fin 8, ∀ c : Fin 8,
+          subLeq a.1 b.1 = true → subLeq b.1 c.1 = true → subLeq a.1 c.1 = true := by decide
+      exact this ⟨a, ha⟩ ⟨b, hb⟩ ⟨c, hc⟩
+  have hcd : CorrectCD subLeq [0, 1, 2, 3, 7] [(0, []), (1, [0]), (2, [0]), (3, [1, 2]), (4, [3])] :=
+    correctCD_of_check (by decide +kernel)
+  refine ⟨hcd, ?_, by decide +kernel⟩
+  exact inv_init_children_dict_total (ord := id) ⟨hpo, fun _ => List.Perm.refl _⟩ _ _ (by decide)
+    (by decide) hcd (by decide) _ (Nat.le_refl _)
 
 end Fca.C09
